@@ -52,6 +52,24 @@ type RegistrationManager struct {
 	// ingestChan is included here so that the capacity and use is available to
 	// stats
 	ingestChan <-chan interface{}
+
+	// reloadMu guards PhantomSelector and GeoIP, which OnReload replaces while ingest workers and
+	// connection handlers are running. Read them through phantomSelector() / GetGeoIP().
+	reloadMu sync.RWMutex
+}
+
+// GetGeoIP returns the GeoIP database currently in use (OnReload may replace it).
+func (regManager *RegistrationManager) GetGeoIP() geoip.Database {
+	regManager.reloadMu.RLock()
+	defer regManager.reloadMu.RUnlock()
+	return regManager.GeoIP
+}
+
+// phantomSelector returns the phantom selector currently in use (OnReload may replace it).
+func (regManager *RegistrationManager) phantomSelector() *phantoms.PhantomIPSelector {
+	regManager.reloadMu.RLock()
+	defer regManager.reloadMu.RUnlock()
+	return regManager.PhantomSelector
 }
 
 // NewRegistrationManager returns a newly initialized registration Manager
@@ -105,11 +123,16 @@ func (regManager *RegistrationManager) OnReload(conf *RegConfig) {
 	if err != nil {
 		regManager.Logger.Errorf("failed to reload phantom subnets: %v", err)
 	} else {
+		regManager.reloadMu.Lock()
 		regManager.PhantomSelector = p
+		regManager.reloadMu.Unlock()
 	}
 
 	// if we made it here via sigHUP then the RegConfig.ParseBlocklists should
 	// already have been called and not erred.
+	// The policy fields are read by ingest workers (through the RegConfig methods, which take the
+	// read side of this lock) while we replace them.
+	regManager.RegConfig.policyMu.Lock()
 	regManager.RegConfig.CovertBlocklistSubnets = conf.CovertBlocklistSubnets
 	regManager.RegConfig.covertBlocklistSubnets = conf.covertBlocklistSubnets
 
@@ -124,6 +147,7 @@ func (regManager *RegistrationManager) OnReload(conf *RegConfig) {
 
 	regManager.RegConfig.PhantomBlocklist = conf.PhantomBlocklist
 	regManager.RegConfig.phantomBlocklist = conf.phantomBlocklist
+	regManager.RegConfig.policyMu.Unlock()
 
 	geoipDB, err := geoip.New(conf.DBConfig)
 	if errors.Is(err, geoip.ErrMissingDB) {
@@ -134,7 +158,9 @@ func (regManager *RegistrationManager) OnReload(conf *RegConfig) {
 		return
 	}
 
+	regManager.reloadMu.Lock()
 	regManager.GeoIP = geoipDB
+	regManager.reloadMu.Unlock()
 }
 
 // AddTransport initializes a transport so that it can be tracked by the manager when
